@@ -45,6 +45,7 @@ type faultIn struct {
 	Silent bool   `json:"silent,omitempty"`
 	Down   bool   `json:"down,omitempty"`   // midopen/outopen: open a downstream
 	Refuse int    `json:"refuse,omitempty"` // pos=refuse: ordinal of the stream whose resume is refused
+	Conflicts int `json:"conflicts,omitempty"` // pos=conflict: the broker answers the first n resume requests of every stream on the new incarnation with RESUME_REQUEST_CONFLICT and accepts the next
 	Late   bool   `json:"late,omitempty"`   // out*: the request is issued 25 ms after the loss, while reconnect() is already redialling (slow redial)
 	OpenAfter bool `json:"open_after,omitempty"` // after the recovery a downstream and an upstream are opened on the healthy connection
 }
@@ -255,6 +256,14 @@ func (r *runner) fault(f faultIn) {
 	}
 	var midcall *pending
 	switch f.Pos {
+	case "conflict":
+		n := f.Conflicts
+		if n < 1 {
+			n = 1
+		}
+		cb.ConflictResumes(n)
+		cur.Link.Sever(mode)
+		r.ev("ELinkDown", "EDetect")
 	case "idle", "handshake":
 		if r.backlog > 0 {
 			cb.FlushHeldAcks() // the ack burst is still in the client's queues when the link dies
@@ -299,6 +308,7 @@ func (r *runner) fault(f faultIn) {
 		r.ev(fmt.Sprintf("EStart %d %s", p.label, kind), fmt.Sprintf("EWake %d", p.label))
 		if !r.waitLog(logStart, kindOfLog(kind), p.label) {
 			cb.Disarm()
+	cb.ConflictResumes(0)
 			cls := -1
 			select {
 			case cls = <-p.done:
@@ -483,9 +493,14 @@ func (r *runner) schedule(fr *faultRec, finals map[int]int) []string {
 		}
 	}
 	nReq, nRes := map[int]int{}, map[int]int{}
+	seenReq := map[[2]int]bool{}
 	for _, x := range cb.Log() {
 		if (x.Kind == "resumeup" || x.Kind == "resumedown") && x.Label >= 0 {
-			nReq[x.Label]++
+			k := [2]int{cb.GenOf(x.Sess), x.Label}
+			if !seenReq[k] {
+				seenReq[k] = true
+				nReq[x.Label]++ // one resume exchange per incarnation, however often a conflict made it repeat the request
+			}
 		}
 	}
 	r.mu.Lock()
@@ -530,6 +545,16 @@ func (r *runner) schedule(fr *faultRec, finals map[int]int) []string {
 			ev(fmt.Sprintf("EFail %d", lbl))
 			delete(inflight, lbl)
 		}
+		// a RESUME_REQUEST_CONFLICT answer makes the client write the request again on the same incarnation
+		repeats := map[int]int{}
+		var uniq []connbroker.Rec
+		for _, x := range w.resumes {
+			if repeats[x.Label] == 0 {
+				uniq = append(uniq, x)
+			}
+			repeats[x.Label]++
+		}
+		w.resumes = uniq
 		ev("ELoop")
 		ev(deferred...)
 		deferred = nil
@@ -567,6 +592,9 @@ func (r *runner) schedule(fr *faultRec, finals map[int]int) []string {
 		ev("EDial true")
 		for _, x := range w.resumes {
 			ev(fmt.Sprintf("ESup %d", x.Label))
+			for k := 1; k < repeats[x.Label]; k++ {
+				ev(fmt.Sprintf("EResumeResp %d RespConflict", x.Label))
+			}
 			resp := fmt.Sprintf("EResumeResp %d RespOk", x.Label)
 			if !resumesLater(x.Label, wi) && lastCut(x.Label) {
 				r.closedBefore[x.Label] = true
@@ -1009,7 +1037,7 @@ func runCase(c *caseIn) (res result) {
 
 // ---------------------------------------------------------------- generators
 
-var positions = []string{"idle", "midopen", "midmeta", "midcall", "outopen", "outmeta", "outcall", "handshake", "resume", "refuse", "dblopen", "dblmeta"}
+var positions = []string{"conflict", "idle", "midopen", "midmeta", "midcall", "outopen", "outmeta", "outcall", "handshake", "resume", "refuse", "dblopen", "dblmeta"}
 
 func genRandom(r *rng.R) *caseIn {
 	c := &caseIn{Ups: r.Intn(3), Downs: r.Intn(3)}
@@ -1019,7 +1047,8 @@ func genRandom(r *rng.R) *caseIn {
 	n := 1 + r.Intn(3)
 	for i := 0; i < n; i++ {
 		f := faultIn{Pos: positions[r.Intn(len(positions))], Slow: r.Chance(1, 3), Down: r.Bool(), Refuse: r.Intn(4)}
-		if (f.Pos == "resume" || f.Pos == "refuse") && c.Ups+c.Downs == 0 {
+		f.Conflicts = 1 + r.Intn(2)
+		if (f.Pos == "resume" || f.Pos == "refuse" || f.Pos == "conflict") && c.Ups+c.Downs == 0 {
 			f.Pos = "idle"
 		}
 		if f.Pos == "idle" {
@@ -1085,7 +1114,10 @@ func main() {
 						if (pos == "resume" || pos == "refuse") && sh[0]+sh[1] == 0 {
 							continue
 						}
-						f := faultIn{Pos: pos, Slow: slow, Down: sh[1] > sh[0], Refuse: int(r.Intn(4))}
+						if pos == "conflict" && sh[0]+sh[1] == 0 {
+							continue
+						}
+						f := faultIn{Pos: pos, Slow: slow, Down: sh[1] > sh[0], Refuse: int(r.Intn(4)), Conflicts: 1 + (sh[0]+sh[1])%2}
 						jobs = append(jobs, job{&caseIn{Ups: sh[0], Downs: sh[1], Faults: []faultIn{f}}, "single-" + pos})
 						if pos == "outopen" && slow {
 							// opens of both directions issued while reconnect() is already redialling
